@@ -1349,6 +1349,16 @@ func (m *Monitors) checkJobTransition(ev *Event, jr *jobRec, old, j *execution.J
 		}
 	}
 
+	// --- C02: a scheduled Job keeps recording its schedule time and its JobConfig, whoever writes to it
+	if a, ok := old.Annotations[AnnScheduleTime]; ok && ev.Type == Modified && isCtrl(ev.Actor) {
+		m.Evals["C02_kept"]++
+		if b, ok2 := j.Annotations[AnnScheduleTime]; !ok2 || a != b {
+			m.fail("C02", "schedule-time-annotation-lost", "scheduled Job %s recorded schedule time %s and after a write of %s (%s) records %q", j.Name, a, ev.Actor, ev.Verb, b)
+		}
+		if old.Labels[LabelJCUID] != j.Labels[LabelJCUID] {
+			m.fail("C02", "jobconfig-label-changed", "scheduled Job %s was labelled with JobConfig uid %q and after a write of %s is labelled %q", j.Name, old.Labels[LabelJCUID], ev.Actor, j.Labels[LabelJCUID])
+		}
+	}
 	// --- C11 monotonicity (all writers)
 	m.Evals["C11"]++
 	if !old.Status.StartTime.IsZero() && !old.Status.StartTime.Equal(j.Status.StartTime) {
